@@ -90,8 +90,9 @@ def main():
     mp = os.path.join(dst, 'meta.json')
     if os.path.exists(mp):
         old = json.load(open(mp))
-        for k in ('needs', 'what'):
+        for k in ('needs', 'what', 'suite_with_patch', 'suite_ok', 'missed_at_first', 'note'):
             if k in old and k not in meta: meta[k] = old[k]
+        if old.get('detected') is False and meta['detected']: meta['missed_at_first'] = True
     json.dump(meta, open(mp, 'w'), indent=1)
     print(json.dumps({k: meta[k] for k in ('name', 'confirmed', 'detected')}))
     return 0
